@@ -156,6 +156,7 @@ func H_RendererReset() {
 	s.PrevSmoothType, s.PrevSmoothPointX, s.PrevSmoothPointY = vp.U8("st")%3, vp.F32("sx"), vp.F32("sy")
 	s.ViewBox = ivg.ViewBox{MinX: vp.F32("vminx"), MinY: vp.F32("vminy"), MaxX: vp.F32("vmaxx"), MaxY: vp.F32("vmaxy")}
 	s.R = r
+	s.StaleRanges = vp.Choice("stale", 3) // 0, 1 or 2 ranges left over from an earlier gradient paint
 	a.VPSet(&s)
 	vb := ivg.ViewBox{MinX: -12, MinY: -12, MaxX: 12, MaxY: 12}
 	pal := ivg.DefaultPalette
@@ -164,6 +165,7 @@ func H_RendererReset() {
 	b.Reset(vb, pal)
 	// well-formed program: optional register traffic, then a path using the smooth verbs first
 	useReg := vp.Choice("useReg", 2) == 1
+	nStops := vp.Choice("nstops", 2)
 	for _, z := range []*render.Renderer{&a, &b} {
 		if useReg {
 			z.SetCReg(0, false, ivg.CRegColor(1)) // reads a register: must be the palette's value
@@ -171,6 +173,12 @@ func H_RendererReset() {
 		z.StartPath(0, 1, 2)
 		z.RelSmoothQuadTo(3, 4) // smooth memory must be clear
 		z.AbsSmoothCubeTo(5, 6, 7, 8)
+		z.ClosePathEndPath()
+		// a path whose paint is a gradient value with 0 or 1 stops: whatever the
+		// renderer does with it must not depend on an earlier gradient paint
+		z.SetCReg(0, false, ivg.RGBAColor(ivg.EncodeGradient(10, 10, 0, 1, uint8(nStops))))
+		z.StartPath(0, 1, 2)
+		z.AbsLineTo(3, 4)
 		z.ClosePathEndPath()
 	}
 	vp.Reach("rendered")
